@@ -16,7 +16,7 @@ for pid in props:
                 'property_id': pid,
                 'quick_cmd': 'python3 runner.py %s --tier quick' % pid,
                 'thorough_cmd': 'python3 runner.py %s --tier thorough' % pid,
-                'evidence_file': 'evidence/%s.json' % pid,
+                'evidence_file': '/verif/evidence/%s.json' % pid,
                 'replay_cmd_template': 'python3 runner.py %s --replay {path}' % pid,
                 'engine': 'cbmc-via-ll2c',
                 'level_claimed': {'category': getattr(m, 'LEVEL', 'model_checking'), 'text': meta['level_text'], 'design_ref': meta.get('design_ref', 'DESIGN.md §3 ' + pid)},
